@@ -26,6 +26,13 @@ RULE = ("libraries built from the model classes (any block mix incl. plain / mid
         "x column x entrypoint and format class x str kind x library class x column x entrypoint on a fixed library, random libraries, "
         "parsed libraries rebuilt block by block, sessions and re-configuration sessions; compared with the model on the plain twin "
         "(same content in the library's own classes: for the writer a SubEntry IS an Entry) and judged by the oracle on the real objects. "
+        "numeric and size edges of the layout (streams layout_*): integer columns 63..4097 (every power of two 32..4096 and 100 / 1000 from "
+        "both sides) x keys of length 1..3 and 60..140; EVERY padding 0..1146 as a contiguous sweep (50 keys of length 1..50 under "
+        "columns 50, 100 .. 1150) for integer columns and for 'auto' (longest key 50 .. 1150), and around 2048 / 4096; 'auto' over two "
+        "entries whose key lengths differ by 1..1025 (edges from both sides); indents of 0..4096 characters (edges from both sides) x "
+        "columns; 0..257 fields per entry, 1..257 entries, separators of 0..4096 characters; one library holding keys of every length "
+        "1..300; values of 0..10000 characters; random mixtures of all of these; sessions re-configuring ONE format object between "
+        "narrow and wide columns / indents - every field line re-derived from (library, format) with EXACTLY the computed padding. "
         "distinct = distinct (library, format); "
         "non-trivial = the library has an entry with a field or a failed block")
 TRUSTED = ["oracle instances: str.splitlines (ten line boundaries) and str.format on templates whose only replacement field is {n} "
@@ -400,6 +407,258 @@ def generate_uc(rng, quick):
     return cases
 
 
+# ---- numeric and size edges of the layout.  Whatever the writer keeps of a FIXED size (a run of blanks the padding is sliced from, a
+# table of paddings / indents / separators, a line buffer, a cache by key length) must be exceeded, and every threshold is crossed
+# from both sides.  All cases are ordinary "build" / "session" cases: the verdict is expected_text (every line re-derived from the
+# library and the format, the padding being exactly max(0, column - len(key) - 3) blanks) and the model comparison as for every other
+# build case.  inp["layout"] names the kind for the distribution only.
+def _edges(bases, lo=0):
+    return sorted({b + d for b in bases for d in (-1, 0, 1) if b + d >= lo})
+
+
+LAYOUT_COLS = sorted(set([64, 65, 67, 68, 72, 100, 127, 128, 129, 255, 256, 1000, 4096] + _edges([32, 64, 128, 256, 512, 1024, 2048, 4096, 100, 1000])
+                         + [66, 69, 70, 71, 80, 120, 200, 300, 500]))
+LAYOUT_KLENS_SHORT = [1, 2, 3]
+LAYOUT_KLENS_LONG_Q = [60, 63, 64, 65, 100, 128, 140]
+LAYOUT_DIFFS = sorted(set([1, 2, 63, 64, 65, 100, 300] + _edges([32, 64, 128, 256, 512, 1024, 100, 300, 1000])))
+LAYOUT_INDENT_LENS = sorted(set([0, 1, 2] + _edges([8, 16, 32, 64, 128, 256, 1000, 4096])))
+LAYOUT_COUNTS = sorted(set([0, 1, 2, 3, 4, 50] + _edges([8, 16, 32, 50, 64, 128, 256]) + [100]))
+LAYOUT_SEP_LENS = sorted(set([0, 1, 2] + _edges([64, 256]) + [1000, 4096]))
+LAYOUT_VAL_LENS = [0, 1, 63, 64, 65, 255, 256, 257, 1000, 4096, 10000]
+LAYOUT_KEY_CHARS = "abcdefghijklmnopqrstuvwxyz"
+LAYOUT_MODEL_LIMIT = 4500          # characters of written text up to which a layout case is also put to the model
+
+
+def lkey(rng, n):
+    """A field key of exactly n characters."""
+    r = rng.random()
+    if r < 0.6:
+        return rng.choice(LAYOUT_KEY_CHARS) * n
+    if r < 0.9:
+        return "".join(rng.choice(LAYOUT_KEY_CHARS + "0123456789_-:.") for _ in range(n))
+    return "".join(rng.choice(KEY_ALPHA) for _ in range(n))
+
+
+def lindent(rng, n):
+    r = rng.random()
+    if r < 0.5:
+        return " " * n
+    if r < 0.7:
+        return "\t" * n
+    if r < 0.9:
+        return "".join(rng.choice(" \t") for _ in range(n))
+    return "x" * n
+
+
+def lval(rng, j):
+    if rng.random() < 0.04:
+        return "{" + "v" * rng.choice(LAYOUT_VAL_LENS) + "}" if rng.random() < 0.8 else ""
+    return rng.choice(["{v%d}", '"w%d"', "%d", "{a = %d}"]) % j
+
+
+def lfields(rng, klens):
+    return [[lkey(rng, n), lval(rng, j)] for j, n in enumerate(klens)]
+
+
+def lentry(rng, i, klens):
+    return ["entry", rng.choice(["article", "book", "misc"]), "e%d" % i, lfields(rng, klens), None]
+
+
+def lfmt(rng, col, indent=None, sep=None):
+    return {"indent": rng.choice(["", " ", "\t", "  ", "    "]) if indent is None else indent, "col": col,
+            "sep": rng.choice(["\n\n", "\n", ""]) if sep is None else sep, "trailing": rng.random() < 0.5,
+            "failed": rng.choice([None, None, "% FAIL {n}"])}
+
+
+def lcase(rng, kind, blocks, f, via=None):
+    return {"stream": "layout_" + kind, "input": {"mode": "build", "via": via or rng.choice(["write", "write_string"]), "blocks": blocks,
+                                                   "fmt": f, "layout": kind}}
+
+
+def lother(rng):
+    """A block that is not an entry; failed blocks hide an entry with a very long key, which must not count for 'auto'."""
+    r = rng.random()
+    if r < 0.3:
+        return ["string", lkey(rng, rng.choice([1, 3, 70, 200])), '"s"', None]
+    if r < 0.5:
+        return ["expl", "a comment"]
+    if r < 0.7:
+        return ["failed", "@broken{x,\n y"]
+    hidden = ["entry", "misc", "h", [[lkey(rng, rng.choice([80, 150, 600])), "{hidden}"]], "raw of h"]
+    return rng.choice([["dupfield", ["entry", "misc", "h", [["a", "{1}"], ["a", "{2}"]] + hidden[3], "raw of h"]],
+                       ["mwerr", "raw text", hidden]])
+
+
+def rlayout(rng):
+    """A random mixture: every number drawn from the edge pools (with a little jitter) or, sometimes, from the ordinary range."""
+    def jit(x):
+        return max(0, x + rng.choice([0, 0, 0, -1, 1, -2, 2, rng.randint(-8, 8)]))
+
+    def klen():
+        r = rng.random()
+        if r < 0.3:
+            return rng.randint(1, 3)
+        if r < 0.6:
+            return rng.randint(60, 140)
+        if r < 0.8:
+            return rng.randint(4, 59)
+        return jit(rng.choice([64, 128, 256, 300, 512, 1000]))
+    blocks = []
+    r = rng.random()
+    ne = 1 if r < 0.4 else 2 if r < 0.7 else 3 if r < 0.9 else rng.choice([4, 8, 50])
+    for i in range(ne):
+        nf = rng.choice([1, 1, 2, 2, 3, 3, 50 if ne < 4 else 2, rng.randint(0, 12)])
+        base = klen()
+        r = rng.random()
+        if r < 0.35:
+            ks = [klen() for _ in range(nf)]
+        elif r < 0.7:
+            ks = [max(0, base + rng.choice([0, 1, -1, 63, 64, 65, 100, 300, rng.randint(0, 70)]) * (j > 0)) for j in range(nf)]
+        else:
+            ks = [max(1, base - j) for j in range(nf)]
+        rng.shuffle(ks)
+        blocks.append(lentry(rng, i, ks))
+        if rng.random() < 0.15:
+            blocks.append(lother(rng))
+    r = rng.random()
+    if r < 0.35:
+        col = "auto"
+    elif r < 0.85:
+        col = jit(rng.choice(LAYOUT_COLS))
+    elif r < 0.95:
+        longest = max([len(k) for b in blocks if b[0] == "entry" for k, _ in b[3]] + [0])
+        col = jit(longest + 3 + rng.choice([0, 1, 63, 64, 65, 127, 128, 129, 255, 256, 257, 1000]))
+    else:
+        col = rng.randint(0, 5000)
+    r = rng.random()
+    ind = lindent(rng, jit(rng.choice(LAYOUT_INDENT_LENS))) if r < 0.35 else None
+    sep = None
+    if rng.random() < 0.1:
+        sep = rng.choice(["\n", " ", "\n%\n", "-"]) * rng.choice(LAYOUT_SEP_LENS)
+    return lcase(rng, "random", blocks, lfmt(rng, col, ind, sep))
+
+
+def rlayout_session(rng):
+    """ONE format object re-configured between narrow and wide layouts, written with each time (oracle only, as every session)."""
+    blocks = [lentry(rng, i, [rng.choice([1, 2, 3, rng.randint(60, 140), rng.randint(4, 30)]) for _ in range(rng.choice([1, 2, 3, 6]))])
+              for i in range(rng.choice([1, 2, 3]))]
+    if rng.random() < 0.3:
+        blocks.append(lentry(rng, 9, [rng.choice([65, 128, 200, 303])]))
+    f = lfmt(rng, rng.choice([0, 9, 40, "auto", 64, 65, 68, 200]))
+    steps = [["write", rng.choice(["write", "write_string"])]]
+    for _ in range(rng.randint(2, 5)):
+        a = rng.choice(["col", "col", "col", "indent", "sep"])
+        if a == "col":
+            v = rng.choice(LAYOUT_COLS + [0, 5, 12, 40, "auto", "auto", "auto", "auto"] * 3)
+        elif a == "indent":
+            v = lindent(rng, rng.choice(LAYOUT_INDENT_LENS[:-3] + [0, 1, 2, 4]))
+        else:
+            v = "\n" * rng.choice(LAYOUT_SEP_LENS[:-2])
+        steps.append(["fmt", a, v])
+        if rng.random() < 0.25:
+            steps.append(["add", [lentry(rng, 20 + len(steps), [rng.choice([1, 70, 135, 260, 400]), 2])], False, False])
+        steps.append(["write", rng.choice(["write", "write_string"])])
+    return {"stream": "layout_session", "input": {"mode": "session", "blocks": blocks, "fmt": f, "steps": steps, "layout": "session"}}
+
+
+def generate_layout(rng, quick):
+    cases = []
+    # 9a. bounded-exhaustive: key length x integer column far beyond it.  One library per column: an entry holding a key of every
+    #     length of the group (paddings col - klen - 3), an entry with ONE field and an entry with TWO fields
+    groups = [LAYOUT_KLENS_SHORT] + ([LAYOUT_KLENS_LONG_Q] if quick else [list(range(a, a + 9)) for a in range(60, 141, 9)])
+    n = 0
+    for g in groups:
+        for col in LAYOUT_COLS:
+            n += 1
+            ks = list(g)
+            rng.shuffle(ks)
+            blocks = [lentry(rng, 0, ks), lentry(rng, 1, [g[n % len(g)]]), lentry(rng, 2, [g[(n + 1) % len(g)], rng.choice([1, 2, 3, 70])])]
+            rng.shuffle(blocks)
+            cases.append(lcase(rng, "col_grid", blocks, lfmt(rng, col)))
+    # 9b. EVERY padding 0..1146: 50 keys of length 1..50 under columns 50, 100 .. 1150; around 2048, 4096 (.. 65536): 11 / 3 keys
+    sweep = [(c, list(range(1, 51))) for c in range(50, 1151, 50)]
+    sweep += [(b + 3 + 25, list(range(20, 31))) for b in (2048, 4096)]
+    if not quick:
+        sweep += [(b + 3 + 2, [1, 2, 3]) for b in (8192, 16384, 32768, 65536)]
+    for c, ks in sweep:
+        ks = list(ks)
+        rng.shuffle(ks)
+        cases.append(lcase(rng, "pad_sweep_int", [lentry(rng, 0, ks)], lfmt(rng, c)))
+        # the same paddings under 'auto': the longest key (c - 3 characters) in the same / an earlier / a later entry
+        ks = list(ks)
+        rng.shuffle(ks)
+        where = rng.choice(["same", "before", "after"])
+        if where == "same":
+            ks.insert(rng.randint(0, len(ks)), c - 3)
+            blocks = [lentry(rng, 0, ks)]
+        else:
+            blocks = [lentry(rng, 0, ks), lentry(rng, 1, [c - 3] + [2] * rng.choice([0, 1]))]
+            if where == "before":
+                blocks.reverse()
+        cases.append(lcase(rng, "pad_sweep_auto", blocks, lfmt(rng, "auto")))
+    # 9c. 'auto' over two entries whose key lengths differ by d: the short key is padded with exactly d blanks
+    for kl in ([[1, 2, 3], [60, 64, 100, 140]] if quick else [[1], [2], [3], [60], [64], [100], [128], [140]]):
+        for d in LAYOUT_DIFFS:
+            klen = rng.choice(kl)
+            n += 1
+            a = lentry(rng, 0, [klen] + [rng.choice([1, klen, klen + d - 1, max(1, klen - 1)]) for _ in range(n % 3)])
+            b = lentry(rng, 1, [klen + d] + [klen] * (n % 2))
+            blocks = [a, b] if rng.random() < 0.5 else [b, a]
+            if rng.random() < 0.2:
+                blocks.insert(rng.randint(0, 2), lother(rng))
+            cases.append(lcase(rng, "auto_diff", blocks, lfmt(rng, "auto")))
+    # 9d. indents of 0 .. 4096 characters x columns
+    for ilen in LAYOUT_INDENT_LENS:
+        for col in ((0, 9, 65, "auto") if quick else (0, 9, 40, 64, 65, 129, "auto")):
+            for rep in range(1 if quick else 3):
+                n += 1
+                ks = [rng.choice([1, 2, 3, 5, 8, 70]) for _ in range(1 + n % 3)]
+                cases.append(lcase(rng, "indent_grid", [lentry(rng, 0, ks)], lfmt(rng, col, lindent(rng, ilen))))
+    # 9e. sizes: fields per entry, entries per library, length of the separator
+    #     ('auto': the ONE longest key sits in the first / the last / some field or entry - nothing may stop counting early)
+    def longest_at(cnt):
+        return rng.choice([0, cnt - 1, cnt - 1, rng.randrange(cnt)])
+    for cnt in LAYOUT_COUNTS:
+        for col in (("auto", rng.choice([12, 70])) if quick else ("auto", 12, 70)):
+            ks = [rng.randint(1, 20) for _ in range(cnt)]
+            if cnt and col == "auto":
+                ks[longest_at(cnt)] = rng.choice([21, 40, 90])
+            cases.append(lcase(rng, "count_fields", [lentry(rng, 0, ks)], lfmt(rng, col)))
+        if cnt:
+            for col in ("auto", 70):
+                ks = [rng.choice([1, 2, 3, 9, 66]) for _ in range(cnt)]
+                if col == "auto":
+                    ks[longest_at(cnt)] = rng.choice([67, 80, 131])
+                blocks = [lentry(rng, i, [k]) for i, k in enumerate(ks)]
+                # the number of separators is the subject: a separator that can be seen
+                cases.append(lcase(rng, "count_entries", blocks, lfmt(rng, col, None, rng.choice(["\n\n", "\n", "\n%\n", " "]))))
+    for slen in LAYOUT_SEP_LENS:
+        for nb in (1, 2, 3, 50):
+            blocks = [lentry(rng, i, [rng.choice([1, 2, 3, 9])] * rng.choice([1, 2])) if rng.random() < 0.8 else lother(rng)
+                      for i in range(nb)]
+            sep = rng.choice(["\n", " ", "\n%\n", "-"]) * slen
+            cases.append(lcase(rng, "sep_len", blocks, lfmt(rng, rng.choice(["auto", 12, 70]), None, sep[:slen] if slen else "")))
+    # 9f. one library holding keys of EVERY length 1..300 (one entry / six entries), below, inside and above the column
+    for col in ("auto", 64, 150, 400):
+        for split in (False, True):
+            ks = list(range(1, 301))
+            rng.shuffle(ks)
+            blocks = [lentry(rng, i, ks[i * 50:(i + 1) * 50]) for i in range(6)] if split else [lentry(rng, 0, ks)]
+            cases.append(lcase(rng, "key_lengths_1_300", blocks, lfmt(rng, col)))
+    # 9g. long values on wide and narrow layouts
+    for vlen in LAYOUT_VAL_LENS:
+        for col in (("auto", 70) if quick else ("auto", 9, 70)):
+            e = lentry(rng, 0, [rng.choice([1, 2, 3, 66]), 5, rng.choice([1, 90])])
+            e[3][rng.randint(0, 2)][1] = "{" + "v" * vlen + "}" if vlen else ""
+            cases.append(lcase(rng, "value_len", [e], lfmt(rng, col)))
+    # 9h. random mixtures; sessions
+    for _ in range(220 if quick else 20000):
+        cases.append(rlayout(rng))
+    for _ in range(60 if quick else 3000):
+        cases.append(rlayout_session(rng))
+    return cases
+
+
 def generate(rng, tier):
     quick = tier == "quick"
     cases = []
@@ -490,6 +749,8 @@ def generate(rng, tier):
         cases.append({"stream": "session_reconf", "input": rreconf(rng)})
     # 8. user classes (drawn after every other stream: the streams above are the same for a given seed as before)
     cases.extend(generate_uc(rng, quick))
+    # 9. numeric and size edges of the layout (drawn after every other stream)
+    cases.extend(generate_layout(rng, quick))
     return cases
 
 
@@ -760,7 +1021,7 @@ def expected_text(blocks, f):
         col = 3 + max([len(fl.key) for e in entries for fl in e.fields] + [0])
     else:
         col = f["col"]
-    notes = {"fields": 0, "short": 0, "long": 0, "zero_pad": 0, "failed": 0}
+    notes = {"fields": 0, "short": 0, "long": 0, "zero_pad": 0, "failed": 0, "max_pad": 0, "max_key": 0}
     texts = []
     bad = None
     for b in blocks:
@@ -783,6 +1044,8 @@ def expected_text(blocks, f):
                     notes["long"] += 1
                 if padding == "":
                     notes["zero_pad"] += 1
+                notes["max_pad"] = max(notes["max_pad"], len(padding))
+                notes["max_key"] = max(notes["max_key"], len(fl.key))
                 notes["fields"] += 1
                 lines.append(line)
             texts.append("@" + b.entry_type + "{" + b.key + ",\n" + "".join(lines) + "}\n")
@@ -812,6 +1075,54 @@ def expected_text(blocks, f):
     if f["col"] == "auto" and notes["fields"]:
         assert notes["zero_pad"] >= 1, "auto column is not minimal"
     return "text", f["sep"].join(texts), notes
+
+
+def line_diagnostic(text, exp, k):
+    """Wording only (the verdict is text != exp): the line of the contract text in which the first difference lies, summarised as
+    (characters before ' = ', of which trailing blanks) - a run of 4000 blanks is not readable in the 60-character excerpt."""
+    def summary(t):
+        a = t.rfind("\n", 0, k) + 1
+        b = t.find("\n", k)
+        line = t[a:len(t) if b < 0 else b]
+        i = line.find(" = ")
+        if i < 0:
+            return "line of %d characters without ' = '" % len(line)
+        head = line[:i]
+        return "line of %d characters, %d before the first ' = ' of which %d trailing blanks, starts %r" % (
+            len(line), len(head), len(head) - len(head.rstrip(" ")), line[:24])
+    if max(len(text), len(exp)) < 200:
+        return ""
+    return "; got: %s; contract: %s" % (summary(text), summary(exp))
+
+
+def layout_size(inp):
+    """About how many characters the written text of a layout case has, from its description."""
+    f = inp.get("fmt") or {"indent": "\t", "col": 0, "sep": "\n\n"}
+    entries = [b for b in inp["blocks"] if b[0] == "entry"]
+    col = f["col"] if f["col"] != "auto" else 3 + max([len(k) for b in entries for k, _ in b[3]] + [0])
+    n = (len(f["sep"]) + 40) * len(inp["blocks"])
+    for b in entries:
+        for k, v in b[3]:
+            n += len(f["indent"]) + max(col, len(k) + 3) + len(v) + 2
+    return n
+
+
+def layout_tags(inp, notes):
+    """Distribution of the layout streams: the kind and how far the widest padding / longest key of the case go."""
+    tags = ["layout", "layout_" + inp["layout"]]
+    for b in (65, 129, 257, 1025, 4097):
+        if notes.get("max_pad", 0) >= b:
+            tags.append("layout_padding_ge_%d" % b)
+    for b in (60, 141, 257):
+        if notes.get("max_key", 0) >= b:
+            tags.append("layout_key_length_ge_%d" % b)
+    f = inp.get("fmt") or {}
+    for b in (63, 255, 1000):
+        if len(f.get("indent", "")) >= b:
+            tags.append("layout_indent_ge_%d" % b)
+    if notes.get("fields", 0) >= 50:
+        tags.append("layout_fields_ge_50")
+    return tags
 
 
 FMT_PUBLIC = ("indent", "value_column", "block_separator", "trailing_comma", "parsing_failed_comment")
@@ -886,8 +1197,8 @@ def judge(r, blocks, f, before, after):
             if not isinstance(text, str):
                 return False, "writer returned %r" % (text,), kind, exp, notes
             k = next((i for i in range(min(len(text), len(exp))) if text[i] != exp[i]), min(len(text), len(exp)))
-            ok, detail = False, "written text differs from the format contract at offset %d: got %r, contract %r" % (
-                k, text[max(0, k - 30):k + 30], exp[max(0, k - 30):k + 30])
+            ok, detail = False, "written text differs from the format contract at offset %d: got %r, contract %r%s" % (
+                k, text[max(0, k - 30):k + 30], exp[max(0, k - 30):k + 30], line_diagnostic(text, exp, k))
     if ok and before != after:
         ok, detail = False, "the BibtexFormat object was changed by writing: %r -> %r" % (before, after)
     return ok, detail, kind, exp, notes
@@ -991,7 +1302,7 @@ def run_session(inp):
     fo = make_fmt(f, ucd)
     held = []
     tags = set()
-    agg = {"fields": 0, "failed": 0, "writes": 0, "after_edit": 0}
+    agg = {"fields": 0, "failed": 0, "writes": 0, "after_edit": 0, "max_pad": 0, "max_key": 0}
     dirty = False
     summary = ""
     for n, st in enumerate(inp["steps"]):
@@ -1063,6 +1374,8 @@ def run_session(inp):
             agg["writes"] += 1
             agg["fields"] += notes["fields"]
             agg["failed"] += notes["failed"]
+            agg["max_pad"] = max(agg["max_pad"], notes["max_pad"])
+            agg["max_key"] = max(agg["max_key"], notes["max_key"])
             if dirty and agg["writes"] > 1:
                 agg["after_edit"] += 1
             dirty = False
@@ -1129,7 +1442,8 @@ def impl(case):
                 "nontrivial": bool(agg["fields"] or agg["failed"]),
                 "key": json.dumps(["session", inp["blocks"], inp.get("fmt"), inp["steps"]] + ([inp["uc"]] if inp.get("uc") else []),
                                   sort_keys=True),
-                "tags": ["session"] + (["uc", "uc_session"] if inp.get("uc") else []) + sorted(tags), "summary": "%d writes; last: %s" % (agg["writes"], summary)}
+                "tags": ["session"] + (["uc", "uc_session"] if inp.get("uc") else []) + (
+                    layout_tags(inp, agg) if inp.get("layout") else []) + sorted(tags), "summary": "%d writes; last: %s" % (agg["writes"], summary)}
 
     import bibtexparser
     from bibtexparser import writer
@@ -1148,7 +1462,10 @@ def impl(case):
     f = inp.get("fmt")
     fo = make_fmt(f, ucd)
     blocks = list(lib.blocks)
-    enc_blocks = [enc.enc_block(b) for b in twin.blocks]
+    # layout streams: the model can represent every case; the encodings of the large ones would dominate the run, so those are judged
+    # by the oracle only, as the sessions are (decided on the description of the case, before anything is written or encoded)
+    big = bool(inp.get("layout")) and layout_size(inp) > LAYOUT_MODEL_LIMIT
+    enc_blocks = [[99]] if big else [enc.enc_block(b) for b in twin.blocks]
     if len(enc_blocks) != len(blocks):
         enc_blocks = [[99]]                                  # no twin: oracle only
     if f is None:
@@ -1169,7 +1486,7 @@ def impl(case):
         rec["summary"] = "raised " + r[2]
     else:
         text = r[1]
-        rec["sx_out"] = implutil.r_ok(enc.enc_str(text)) if isinstance(text, str) else implutil.r_ok([99])
+        rec["sx_out"] = implutil.r_ok(enc.enc_str(text)) if (isinstance(text, str) and not big) else implutil.r_ok([99])
         rec["summary"] = repr(text)[:200]
     if any(x == 99 for b in enc_blocks for x in b[:1]):
         rec["sx_in"] = None
@@ -1186,6 +1503,13 @@ def impl(case):
         tags.append("expects_" + exp)
     if not blocks:
         tags.append("empty_library")
+    if inp.get("layout"):
+        tags += layout_tags(inp, notes)
+        if big:
+            rec["sx_in"] = rec["sx_out"] = None
+            tags.append("layout_oracle_only_above_%d_characters" % LAYOUT_MODEL_LIMIT)
+        elif rec["sx_in"] is not None:
+            tags.append("layout_compared_with_model")
     if ucd:
         ut = uc_tags(lib, blocks, fo)
         tags += ["uc"] + sorted(ut) + (["uc_compared_with_model_on_plain_twin"] if rec["sx_in"] is not None else [])
